@@ -19,7 +19,7 @@
  * RAW entry, whether file[0] is open after the call (internal.h peek), so that the
  * checker can feed the LRU auto-close decisions (which depend on time(NULL)) to the model.
  *
- * types: i8 u8 i16 u16 i32 u32 i64 u64 f32 f64 null.  Values are printed as
+ * types: i8 u8 i16 u16 i32 u32 i64 u64 f32 f64 c64 c128 null (complex: real part, ";imag" when non-zero).  Values are printed as
  * decimal integers when integral, "nan" for NaN, %.17g otherwise.
  */
 #include "internal.h"
@@ -32,8 +32,16 @@ static gd_type_t ty(const char *s)
   if (!strcmp(s, "i32")) return GD_INT32; if (!strcmp(s, "u32")) return GD_UINT32;
   if (!strcmp(s, "i64")) return GD_INT64; if (!strcmp(s, "u64")) return GD_UINT64;
   if (!strcmp(s, "f32")) return GD_FLOAT32; if (!strcmp(s, "f64")) return GD_FLOAT64;
+  if (!strcmp(s, "c64")) return GD_COMPLEX64; if (!strcmp(s, "c128")) return GD_COMPLEX128;
   if (!strcmp(s, "null")) return GD_NULL;
   fprintf(stderr, "bad type %s\n", s); exit(2);
+}
+
+static void pdbl(double d)
+{
+  if (d != d) printf("nan");
+  else if (d == floor(d) && fabs(d) < 9e15) printf("%.0f", d);
+  else printf("%.17g", d);
 }
 
 static void pval(gd_type_t t, const void *buf, size_t i)
@@ -50,6 +58,12 @@ static void pval(gd_type_t t, const void *buf, size_t i)
     case GD_UINT64: printf(" %" PRIu64, ((const uint64_t *)buf)[i]); return;
     case GD_FLOAT32: d = ((const float *)buf)[i]; isf = 1; break;
     case GD_FLOAT64: d = ((const double *)buf)[i]; isf = 1; break;
+    case GD_COMPLEX64: {
+      double re = ((const float *)buf)[2 * i], im = ((const float *)buf)[2 * i + 1];
+      printf(" "); pdbl(re); if (im != 0 && !(re != re)) { printf(";"); pdbl(im); } return; }
+    case GD_COMPLEX128: {
+      double re = ((const double *)buf)[2 * i], im = ((const double *)buf)[2 * i + 1];
+      printf(" "); pdbl(re); if (im != 0 && !(re != re)) { printf(";"); pdbl(im); } return; }
     default: return;
   }
   if (isf) {
